@@ -19,6 +19,7 @@ type pI struct{ Name string }
 
 type pK struct {
 	Name     string
+	Sub      *pK
 	Tags     []string
 	Inner    pI
 	InnerPtr *pI
@@ -60,6 +61,13 @@ func (r pR) ChildPtr() *pK  { k := mkK(r.path + ".ChildPtr()"); return &k }
 func (r pR) NilChild() *pK  { return nil }
 
 func mkK(p string) pK {
+	k := mkKEnd(p)
+	sub := mkKEnd(p + ".Sub")
+	k.Sub = &sub
+	return k
+}
+
+func mkKEnd(p string) pK {
 	return pK{Name: p + ".Name", Tags: []string{p + ".Tags[0]", p + ".Tags[1]"}, Inner: pI{p + ".Inner.Name"}, InnerPtr: &pI{p + ".InnerPtr.Name"}, secret: "hidden", path: p}
 }
 
